@@ -247,10 +247,11 @@ class Map:
 class Str:
     """abstract string: `id` is a z3 BV64 (distinct concrete strings get distinct ids),
     `text` the literal when known."""
-    __slots__ = ('id', 'text')
+    __slots__ = ('id', 'text', 'parts')
     _intern = {}
 
-    def __init__(self, id=None, text=None):
+    def __init__(self, id=None, text=None, parts=None):
+        self.parts = parts      # (template bytes, [argument values]) for strings built by format!
         if id is None:
             if text not in Str._intern:
                 Str._intern[text] = len(Str._intern) + 1
